@@ -278,7 +278,8 @@ def report(ctx, replay=None):
 
     # ---- the design specification
     stage = {"what": "expiry machinery of the real program: timer loop of main() on 1 and 3 real nodes, SessionExpiration set through "
-                     "POST /config, leader stopped/killed; recorded log + streams validated by TLC (ExpiryTrace.tla)",
+                     "POST /config, leader stopped/killed, a node that installs a snapshot at run time (FSM.Restore replaces its server object) and then "
+                     "leads; recorded log + streams validated by TLC (ExpiryTrace.tla)",
              "build_s": build_s, "scenarios_and_model_checking_s": scen_s, "model_checking": [], "scenarios": []}
     zero_by_cfg = {}
     for cfg, r, wall in mcres:
